@@ -213,10 +213,20 @@ Qed.
 
 Ltac fin HG := split; [exact HG|]; split; [reflexivity|]; repeat split; auto.
 
-Theorem gate2_hits_denoted_qubits s h1 h2 g vi q1 q2 :
+(* the register merges a two-qubit gate may perform before the engine call *)
+Inductive mrel : net -> net -> Prop :=
+| mrel_refl s : mrel s s
+| mrel_local s sn k1 k2 r1 r2 : inv s -> k1 <> k2 -> In r1 (regs (nth_node s sn)) -> r_num r1 = k1 ->
+    In r2 (regs (nth_node s sn)) -> r_num r2 = k2 -> mrel s (local_merge s sn k1 k2)
+| mrel_from s li oi simNum lk x lr : li <> oi -> inv s -> In x (sims (nth_node s oi)) -> s_simNum x = simNum ->
+    In lr (regs (nth_node s li)) -> r_num lr = lk -> mrel s (fst (merge_from s li oi simNum lk))
+| mrel_force s vi : vi < length (nodes s) -> mrel s (set_node s vi (fst (add_register_force (nth_node s vi))))
+| mrel_trans s1 s2 s3 : mrel s1 s2 -> mrel s2 s3 -> mrel s1 s3.
+
+Theorem gate2_hits_denoted_qubits_merges s h1 h2 g vi q1 q2 :
   reachable s -> find_handle s h1 = Some (vi, q1) -> find_handle s h2 = Some (vi, q2) -> h1 <> h2 ->
   exists sm ni k p1 p2 r,
-    ginv sm /\
+    mrel s sm /\ ginv sm /\
     step s (OGate2 h1 h2 g) = (apply_gate2_at sm ni k g p1 p2, OkNone) /\
     In r (regs (nth_node sm ni)) /\ r_num r = k /\ p1 < r_n r /\ p2 < r_n r /\ p1 <> p2 /\
     nth p1 (r_ids r) 0 = v_qid q1 /\ nth p2 (r_ids r) 0 = v_qid q2.
@@ -240,7 +250,8 @@ Proof.
       rewrite <- A2 in F3, F5, F6. rewrite <- C2 in F4, F5, F7.
       rewrite (pos_of_in s sn y1 H A1) in F3, F5, F6. rewrite (pos_of_in s sn y2 H C1) in F4, F5, F7. simpl in *.
       destruct (Nat.eqb_spec (s_pos y1) (s_pos y2)); [contradiction|].
-      exists s, sn, (s_reg y1), (s_pos y1), (s_pos y2), r. assert (HG : ginv s) by (split; auto). fin HG.
+      exists s, sn, (s_reg y1), (s_pos y1), (s_pos y2), r. assert (HG : ginv s) by (split; auto).
+      split; [apply mrel_refl|]. fin HG.
     + (* different registers on one node: local merge *)
       set (sm := local_merge s sn (s_reg y1) (s_reg y2)).
       assert (R1 : exists r1, In r1 (regs (nth_node s sn)) /\ r_num r1 = s_reg y1) by eauto.
@@ -257,7 +268,8 @@ Proof.
       rewrite A2, C2.
       destruct (pos_of sm sn (v_simNum q1)) as [a b]. destruct (pos_of sm sn (v_simNum q2)) as [a' b']. simpl in *.
       assert (HG : ginv sm) by (split; auto; apply (hid_inv_hkeeps _ s (local_merge_hkeeps sn (s_reg y1) (s_reg y2)) HI)).
-      exists sm, sn, (s_reg y1), b, b', r. fin HG.
+      exists sm, sn, (s_reg y1), b, b', r.
+      split; [apply (mrel_local s sn (s_reg y1) (s_reg y2) ry1 ry2); auto|]. fin HG.
   - destruct (Nat.eqb_spec (v_simNode q1) vi) as [E1|N1].
     + (* control local, target pulled here *)
       rewrite E1 in A1, A3. rewrite <- A2. rewrite (pos_of_in s vi y1 H A1).
@@ -267,6 +279,8 @@ Proof.
       pose proof (inv_merge_from s vi (v_simNode q2) (v_simNum q2) (s_reg y1) Hne' H) as IM.
       pose proof (merge_from_hkeeps vi (v_simNode q2) (v_simNum q2) (s_reg y1)) as HK.
       pose proof (hid_inv_hkeeps _ s HK HI) as HIM. cbv beta in HIM.
+      assert (MR : mrel s (fst (merge_from s vi (v_simNode q2) (v_simNum q2) (s_reg y1))))
+        by (apply (mrel_from s vi (v_simNode q2) (v_simNum q2) (s_reg y1) y2 ry1); auto).
       destruct (merge_from s vi (v_simNode q2) (v_simNum q2) (s_reg y1)) as [sm newT]. cbn [fst snd] in *.
       assert (D1' : denotes sm vi h1 (v_qid q1) vi (s_simNum y1)).
       { destruct (MH vi q1 Hq1) as (p' & P1 & P2 & P3 & _ & P5). destruct P5 as [P5 P6]; [congruence|].
@@ -279,7 +293,7 @@ Proof.
       rewrite A2 in *.
       destruct (pos_of sm vi (v_simNum q1)) as [a b]. destruct (pos_of sm vi newT) as [a' b']. simpl in *.
       assert (HG : ginv sm) by (split; auto).
-      exists sm, vi, (s_reg y1), b, b', r. fin HG.
+      exists sm, vi, (s_reg y1), b, b', r. split; [exact MR|]. fin HG.
     + destruct (Nat.eqb_spec (v_simNode q2) vi) as [E2|N2].
       * (* target local, control pulled here *)
         rewrite E2 in C1, C3. rewrite <- C2. rewrite (pos_of_in s vi y2 H C1).
@@ -289,6 +303,8 @@ Proof.
         pose proof (inv_merge_from s vi (v_simNode q1) (v_simNum q1) (s_reg y2) Hne' H) as IM.
         pose proof (merge_from_hkeeps vi (v_simNode q1) (v_simNum q1) (s_reg y2)) as HK.
         pose proof (hid_inv_hkeeps _ s HK HI) as HIM. cbv beta in HIM.
+        assert (MR : mrel s (fst (merge_from s vi (v_simNode q1) (v_simNum q1) (s_reg y2))))
+          by (apply (mrel_from s vi (v_simNode q1) (v_simNum q1) (s_reg y2) y1 ry2); auto).
         destruct (merge_from s vi (v_simNode q1) (v_simNum q1) (s_reg y2)) as [sm newC]. cbn [fst snd] in *.
         assert (D1' : denotes sm vi h1 (v_qid q1) vi newC).
         { destruct (MH vi q1 Hq1) as (p' & P1 & P2 & P3 & P4 & _). destruct P4 as [P4 P5]; auto.
@@ -301,10 +317,11 @@ Proof.
         rewrite C2 in *.
         destruct (pos_of sm vi newC) as [a b]. destruct (pos_of sm vi (v_simNum q2)) as [a' b']. simpl in *.
         assert (HG : ginv sm) by (split; auto).
-        exists sm, vi, (s_reg y2), b, b', r. fin HG.
+        exists sm, vi, (s_reg y2), b, b', r. split; [exact MR|]. fin HG.
       * (* both remote at two different nodes: fresh local register *)
         pose proof (inv_add_register_force s vi H) as I0.
-        unfold add_register_force in *. cbn [fst] in I0.
+        pose proof (mrel_force s vi Lvi) as MR0.
+        unfold add_register_force in *. cbn [fst] in I0, MR0.
         set (nd1 := mkNode _ _ _ _ _ _ _) in *. set (r0 := mkReg _ _ _ _ _).
         set (s0 := set_node s vi nd1) in *.
         assert (HI0 : hid_inv s0).
@@ -323,6 +340,8 @@ Proof.
           as (MH1 & MS1 & MN1 & MO1 & (lr2 & LR2 & LK2)).
         pose proof (inv_merge_from s0 vi (v_simNode q1) (v_simNum q1) (r_num r0) Hne1 I0) as IM1.
         pose proof (hid_inv_hkeeps _ s0 (merge_from_hkeeps vi (v_simNode q1) (v_simNum q1) (r_num r0)) HI0) as HIM1. cbv beta in HIM1.
+        assert (MR1 : mrel s0 (fst (merge_from s0 vi (v_simNode q1) (v_simNum q1) (r_num r0))))
+          by (apply (mrel_from s0 vi (v_simNode q1) (v_simNum q1) (r_num r0) y1 r0); auto).
         destruct (merge_from s0 vi (v_simNode q1) (v_simNum q1) (r_num r0)) as [s1 newC]. cbn [fst snd] in *.
         assert (C1' : In y2 (sims (nth_node s1 (v_simNode q2)))).
         { destruct (MO1 (v_simNode q2)) as [E _]; auto. rewrite E, S0. auto. }
@@ -330,6 +349,8 @@ Proof.
           as (MH2 & MS2 & MN2 & _ & _).
         pose proof (inv_merge_from s1 vi (v_simNode q2) (v_simNum q2) (r_num r0) Hne2 IM1) as IM2.
         pose proof (hid_inv_hkeeps _ s1 (merge_from_hkeeps vi (v_simNode q2) (v_simNum q2) (r_num r0)) HIM1) as HIM2. cbv beta in HIM2.
+        assert (MR2 : mrel s1 (fst (merge_from s1 vi (v_simNode q2) (v_simNum q2) (r_num r0))))
+          by (apply (mrel_from s1 vi (v_simNode q2) (v_simNum q2) (r_num r0) y2 lr2); auto).
         destruct (merge_from s1 vi (v_simNode q2) (v_simNum q2) (r_num r0)) as [s2 newT]. cbn [fst snd] in *.
         (* follow the two handles through both merges *)
         assert (Hq1' : In q1 (virt (nth_node s0 vi))) by (rewrite V0; auto).
@@ -345,7 +366,21 @@ Proof.
         destruct (finish s2 vi h1 h2 _ _ vi _ _ (r_num r0) IM2 D1' D2' S1 MN2 Hne) as (r & F1 & F2 & F3 & F4 & F5 & F6 & F7).
         destruct (pos_of s2 vi newC) as [a b]. destruct (pos_of s2 vi newT) as [a' b']. simpl in *.
         assert (HG : ginv s2) by (split; auto).
-        exists s2, vi, (r_num r0), b, b', r. fin HG.
+        exists s2, vi, (r_num r0), b, b', r.
+        split; [exact (mrel_trans _ _ _ MR0 (mrel_trans _ _ _ MR1 MR2))|]. fin HG.
+Qed.
+
+Theorem gate2_hits_denoted_qubits s h1 h2 g vi q1 q2 :
+  reachable s -> find_handle s h1 = Some (vi, q1) -> find_handle s h2 = Some (vi, q2) -> h1 <> h2 ->
+  exists sm ni k p1 p2 r,
+    ginv sm /\
+    step s (OGate2 h1 h2 g) = (apply_gate2_at sm ni k g p1 p2, OkNone) /\
+    In r (regs (nth_node sm ni)) /\ r_num r = k /\ p1 < r_n r /\ p2 < r_n r /\ p1 <> p2 /\
+    nth p1 (r_ids r) 0 = v_qid q1 /\ nth p2 (r_ids r) 0 = v_qid q2.
+Proof.
+  intros R EF1 EF2 Hne.
+  destruct (gate2_hits_denoted_qubits_merges s h1 h2 g vi q1 q2 R EF1 EF2 Hne) as (sm & ni & k & p1 & p2 & r & _ & HH).
+  exists sm, ni, k, p1, p2, r. exact HH.
 Qed.
 
 (* ---- physical-qubit identities ----------------------------------------------------------------------------------------- *)
